@@ -63,15 +63,17 @@ Congruent(x1, x2) == DyIsZero(Mod360(DySub(x1, x2)))
 (* log2 of the unit in the last place of a value v # 0 stored in type t *)
 UlpExp(t, v) == MaxI(DyLog2(v) - (Prec(t) - 1), MinExp(t))
 
-(* TOLERANCE Eps: "the rounding error of the stored angle" = 4 ulp_t(max(|x|, 360)).
+(* TOLERANCE Eps: "the rounding error of the stored angle" = 8 ulp_t(max(|x|, 360)).
    Principled bound: normalisation computes x/360 (1 rounding), x + 180 (1 rounding, signed form),
    floor/ceil, k*360 and a subtraction (exact whenever k*360 is representable, otherwise 1 rounding each);
    an error of one unit in k moves the result by one turn and is invisible modulo 360, but the
-   roundings can push the result past the end of the interval by up to 1 ulp of the stored angle, and a
-   result close to 360 is itself rounded to the grid of 360.  Calibration on the pinned tree: see the
-   evidence file (max_dev_ulps); 4 ulp leaves the required margin over what is observed. *)
-EpsUlps == 4
-Eps(t, x) == DyPow2(UlpExp(t, DyMax(DyAbs(x), D360)) + 2)
+   roundings can push the result past the end of the interval by 1 ulp of the stored angle
+   (x = 180 + 360k + ulp(x): x + 180 rounds to 360(k+1), so the result is 180 + ulp(x)), and a result
+   close to 360 is itself rounded to the grid of 360 (0.5 ulp).  Calibration on the pinned tree
+   (evidence: max_deviation_observed): range overshoot exactly 1 ulp, congruence 0.5 ulp; 8 ulp leaves
+   the required 8x margin. *)
+EpsUlps == 8
+Eps(t, x) == DyPow2(UlpExp(t, DyMax(DyAbs(x), D360)) + 3)
 
 -----------------------------------------------------------------------------
 (* normal forms *)
@@ -115,8 +117,11 @@ EqOK(t, x1, x2, b) ==
 -----------------------------------------------------------------------------
 (* degrees and radians.  Reference constant: pi to 48 decimals (OEIS A000796), kept to 104
    fractional bits by FxDec. *)
-PiFx == FxDec(1, 3, <<1415, 9265, 3589, 7932, 3846, 2643, 3832, 7950, 2884, 1971, 6939, 9375>>)
-PiDy == <<1, -FL, PiFx[2]>>
+PiDec == FxDec(1, 3, <<1415, 9265, 3589, 7932, 3846, 2643, 3832, 7950, 2884, 1971, 6939, 9375>>)
+(* the same number as a literal (floor(pi * 2^104) in limbs), because TLC re-evaluates a definition that goes
+   through a RECURSIVE operator at every use; MC_Hue asserts PiFx = PiDec at every model run *)
+PiFx == <<1, <<3587, 3153, 1222, 4518, 6704, 1090, 7594, 1159, 3>>>>
+PiDy == <<1, -FL, <<3587, 3153, 1222, 4518, 6704, 1090, 7594, 1159, 3>>>>
 
 (* TOLERANCE RadRelBits: deg -> rad and rad -> deg are one multiplication by a constant that is itself
    rounded to the component type: relative error <= 2 * 2^-Prec.  2^-(Prec-4) is 8 x that.
